@@ -285,6 +285,8 @@ func (c *compiler) ProcessWhileStat(s ast.WhileStat) {
 }
 
 func (c *compiler) CompileStat(s ast.Stat) {
+	c.enterNode(s)
+	defer c.leaveNode()
 	s.ProcessStat(c)
 }
 
